@@ -28,17 +28,17 @@ type c15acct struct {
 }
 
 type c15state struct {
-	rt      *rapid.T
-	w       *hlsim.World
-	admin   *hlsim.Conn
-	model   map[string]*c15acct
-	logins  []string // every login ever used (pool)
-	pws     []string // every password ever used
-	history []string
-	edits   int
-	nt      bool
-	ev      *evid.Rec
-	addr    int
+	rt         *rapid.T
+	w          *hlsim.World
+	admin      *hlsim.Conn
+	model      map[string]*c15acct
+	logins     []string // every login ever used (pool)
+	pws        []string // every password ever used
+	history    []string
+	edits      int
+	nt         bool
+	ev         *evid.Rec
+	addr       int
 	pendingOld []string // logins renamed away / deleted, not yet probed
 }
 
